@@ -29,7 +29,23 @@ CLAIMED = {
  "C20": ("must-pass relational guard facts on the stored SSA value for every runtime store to the three bounded parameters + who-may-write",
          "every runtime store to DepositTaxRate/MinDepositAmount/ConfirmationNumber is dominated by the bound on the very value stored (rate < 10000, amount > 1000, number >= 1); no other runtime writer; tax divisor equals the rate bound and division comes first",
          "the arithmetic consequence for every 64-bit value; genesis configuration"),
+ "C06": ("call-graph who-may-call + SSA nonce/queue pop-shape analysis (value graph of the nonce, counter identity of index and re-slice) + must-pass facts",
+         "the dequeue functions are reachable only via Dequeue/VerifyDequeue (tx context: NewEthBlock only); every emitted system tx is paired with nonce+1 and the stored nonce is Peek + emits; lists are consumed F[n] for n=0.. under len/cap bounds and re-sliced by the same n; queue and nonce are stored on every success path that emitted; block hashes are stored at tip+1.. with start == tip+1 and have no other writer; VerifyDequeue byte-compares the two dequeued lists in order and requires the declared count to reach zero; other queue writers only append at the tail",
+         "behaviour across abandoned proposal rounds and restarts (SDK state branching), numeric adequacy of the caps"),
+ "C07": ("call-graph reachability to nondeterminism sources with a positive control + map-range loop-body effect analysis + process-local-state rules",
+         "no time/rand/env/goroutine/channel/select reachable from tx, block-hook, ante or genesis code; every map range there is order-insensitive (no store access at all in gas-metered context; key-derived writes and order-free result in block context); no package-level or keeper-reachable mutable state; only exact IEEE float operations",
+         "determinism of dependencies, restart equivalence of the store"),
+ "C08": ("must-pass facts in ProcessProposal/PrepareProposal closures + sibling obligation comparison (proposal check vs execution) + inter-procedural read/write effect sets of errgroup closures",
+         "ProcessProposal skeleton (1..16 txs, per-tx verification, first tx = single MsgNewEthBlock verified, none later, ACCEPT after the list); Prepare stops at the same cap; verifyEthBlockProposal and NewEthBlock agree on the eight structural checks and createEthBlockProposal sources the same state; engine error/non-VALID rejects; no memory written by one errgroup closure is accessed by its sibling",
+         "that honest proposals are always accepted (clocks, engine behaviour), races inside the SDK/mempool"),
+ "C09": ("who-may-write + must-pass facts dominating the head writes + value provenance of the engine call arguments + typed AST of the app config",
+         "Block/BeaconRoot written only by NewEthBlock and genesis, after every structural guard and request processor; Finalized returns both engine errors, fails on INVALID from either call, sends the recorded head with safe = finalized = parent; goat EndBlock returns Finalized's error and the module is wired as end-blocker; engine RPC wrappers propagate errors",
+         "retry-after-fault equivalence, what the engine does"),
+ "C10": ("typed decorator-chain check + must-pass facts on every path to next() + per-mode admission path search + extraction of the name predicate and evaluation over every registered Msg type of the app's import closure",
+         "ante chain composition and installation; StdTx/memo/one-signer/timeout guards; in each of the five execution modes a message reaches next() only through relayerTxOnly (or the exact MsgNewEthBlock name with timeout == height in block modes); relayerTxOnly = namespace prefix + signer equals current relayer proposer; the predicate admits exactly the repository's bitcoin/relayer messages (administration messages found and rejected); admitted handlers bind the proposer before any write",
+         "signature/sequence decorator internals (SDK)"),
 }
+
 
 NA_REASON = "check under construction in this round (static rules designed in DESIGN.md section 2, not yet wired)"
 
